@@ -1623,6 +1623,11 @@ class Interp:
         if isinstance(base, (SList, SDict, tuple, frozenset, dict, list)):
             return BuiltinMethod(base, name)
         if isinstance(base, (types.ModuleType, type)) or callable(base) or True:
+            if not isinstance(base, (types.ModuleType, type)):
+                for k in type(base).__mro__:
+                    mm = self.p.engine.models.get(('method', k, name))
+                    if mm is not None:
+                        return BoundMethod(base, mm, name)
             try:
                 raw = inspect.getattr_static(base, name) if isinstance(base, type) else getattr(base, name)
             except AttributeError:
